@@ -17,6 +17,7 @@ use std::time::{Duration, Instant};
 
 use hickory_net::xfer::Protocol;
 use hickory_proto::dnssec::rdata::DNSSECRData;
+use hickory_proto::dnssec::PublicKey;
 use hickory_proto::op::{Edns, Message, MessageType, OpCode, Query};
 use hickory_proto::rr::rdata::opt::{EdnsCode, EdnsOption};
 use hickory_proto::rr::rdata::{A, AAAA, ANAME, CNAME, HINFO, MX, NS, NULL, OPT, PTR, SOA, SRV, TXT};
@@ -32,7 +33,7 @@ const BUDGET: Duration = Duration::from_secs(2);
 const STUCK: Duration = Duration::from_secs(60);
 
 /// record types whose RDATA codec has no Lean model yet (must equal `Wire.unmodelled`)
-const UNMODELLED: &[u16] = &[250, 48, 60, 59, 43, 25, 47, 50, 51, 46, 24, 257, 37, 62, 65, 35, 61, 53, 44, 64, 52];
+const UNMODELLED: &[u16] = &[25, 257, 65, 35, 64];
 
 /// every RecordType code hickory knows, plus a few it does not
 const ALL_TYPES: &[u16] = &[
@@ -97,8 +98,110 @@ fn show_rdata(d: &RData) -> String {
         RData::Update0(t) => format!("UPD0:{}", u16::from(*t)),
         #[allow(deprecated)]
         RData::ZERO => "ZERO".into(),
+        RData::TSIG(t) => show_tsig(t),
+        RData::DNSSEC(DNSSECRData::DS(d)) => {
+            format!("DS:{}:{}:{}:{}", d.key_tag(), u8::from(d.algorithm()), u8::from(d.digest_type()), hex(d.digest()))
+        }
+        RData::DNSSEC(DNSSECRData::CDS(d)) => format!(
+            "DS:{}:{}:{}:{}",
+            d.key_tag(),
+            d.algorithm().map(u8::from).unwrap_or(0),
+            u8::from(d.digest_type()),
+            hex(d.digest())
+        ),
+        RData::DNSSEC(DNSSECRData::DNSKEY(k)) => format!(
+            "DNSKEY:{}:{}:{}",
+            k.flags(),
+            u8::from(k.public_key().algorithm()),
+            hex(k.public_key().public_bytes())
+        ),
+        RData::DNSSEC(DNSSECRData::CDNSKEY(k)) => format!(
+            "DNSKEY:{}:{}:{}",
+            k.flags(),
+            k.algorithm().map(u8::from).unwrap_or(0),
+            match k.public_key() {
+                Some(pk) => hex(pk.public_bytes()),
+                None => "!".into(),
+            }
+        ),
+        RData::DNSSEC(DNSSECRData::RRSIG(s)) => show_sig_rdata(s),
+        RData::DNSSEC(DNSSECRData::SIG(s)) => show_sig_rdata(s),
+        RData::DNSSEC(DNSSECRData::NSEC(n)) => {
+            format!("NSEC:{}:{}", name_tok(n.next_domain_name()), show_types(n.type_bit_maps()))
+        }
+        RData::DNSSEC(DNSSECRData::NSEC3(n)) => format!(
+            "NSEC3:{}:{}:{}:{}:{}",
+            b(n.opt_out()),
+            n.iterations(),
+            hex(n.salt()),
+            hex(n.next_hashed_owner_name()),
+            show_types(n.type_bit_maps())
+        ),
+        RData::DNSSEC(DNSSECRData::NSEC3PARAM(n)) => {
+            format!("NSEC3PARAM:{}:{}:{}", b(n.opt_out()), n.iterations(), hex(n.salt()))
+        }
+        RData::CERT(c) => format!(
+            "CERT:{}:{}:{}:{}",
+            u16::from(c.cert_type),
+            c.key_tag,
+            u8::from(c.algorithm),
+            hex(&c.cert_data)
+        ),
+        RData::CSYNC(c) => format!("CSYNC:{}:{}:{}", c.soa_serial, c.flags(), show_types(c.type_bit_maps.iter())),
+        RData::TLSA(t) => show_tlsa(t),
+        RData::SMIMEA(t) => show_tlsa(&t.0),
+        RData::SSHFP(x) => format!(
+            "SSHFP:{}:{}:{}",
+            u8::from(x.algorithm),
+            u8::from(x.fingerprint_type),
+            hex(&x.fingerprint)
+        ),
+        RData::OPENPGPKEY(k) => format!("OPENPGPKEY:{}", hex(&k.public_key)),
         other => format!("X{}:?", u16::from(other.record_type())),
     }
+}
+
+fn show_types(it: impl Iterator<Item = RecordType>) -> String {
+    it.map(|t| u16::from(t).to_string()).collect::<Vec<_>>().join(".")
+}
+
+fn show_tsig(t: &hickory_proto::rr::rdata::TSIG) -> String {
+    format!(
+        "TSIG:{}:{}:{}:{}:{}:{}:{}",
+        name_tok(&t.algorithm.to_name()),
+        t.time,
+        t.fudge,
+        hex(&t.mac),
+        t.oid,
+        t.error.map(u16::from).unwrap_or(0),
+        hex(&t.other)
+    )
+}
+
+fn show_sig_rdata(s: &hickory_proto::dnssec::rdata::SIG) -> String {
+    let i = s.input();
+    format!(
+        "SIG:{}:{}:{}:{}:{}:{}:{}:{}:{}",
+        u16::from(i.type_covered),
+        u8::from(i.algorithm),
+        i.num_labels,
+        i.original_ttl,
+        i.sig_expiration.get(),
+        i.sig_inception.get(),
+        i.key_tag,
+        name_tok(&i.signer_name),
+        hex(s.sig())
+    )
+}
+
+fn show_tlsa(t: &hickory_proto::rr::rdata::TLSA) -> String {
+    format!(
+        "TLSA:{}:{}:{}:{}",
+        u8::from(t.cert_usage),
+        u8::from(t.selector),
+        u8::from(t.matching),
+        hex(&t.cert_data)
+    )
 }
 
 fn show_record(r: &Record) -> String {
@@ -154,7 +257,7 @@ fn show_recs(rs: &[Record]) -> String {
 fn show_sig(s: Option<&Record<hickory_proto::rr::rdata::TSIG>>) -> String {
     match s {
         None => "-".into(),
-        Some(r) => format!("R({},250,{},{},X250:?)", name_tok(&r.name), u16::from(r.dns_class), r.ttl),
+        Some(r) => format!("R({},250,{},{},{})", name_tok(&r.name), u16::from(r.dns_class), r.ttl, show_tsig(&r.data)),
     }
 }
 
